@@ -118,10 +118,12 @@ impl Check for New {
                         .append(&mut context_clause.bindings.clone());
 
                     clause.context = context_clause;
-                    clause.body =
-                        clause
-                            .body
-                            .check(symbol_table, &new_context, &dtor_ret_ty.clone())?;
+                    // the instance of the return type may not have been created yet
+                    let dtor_ret_ty = dtor_ret_ty.clone();
+                    dtor_ret_ty.check(&Some(self.span), symbol_table)?;
+                    clause.body = clause
+                        .body
+                        .check(symbol_table, &new_context, &dtor_ret_ty)?;
                     new_clauses.push(clause);
                 }
             }
